@@ -43,7 +43,7 @@ for p in props:
 m={"version":1,"setup_cmd":"./setup.sh",
  "hooks":{"guard":"verif","enable":"go build -tags verif (package verifapi; C15/C16/C12 additionally rewrite os.*/time.Now call sites of a scratch copy to the verifvfs shim)","baseline_off_cmd":"cd /repo && go test -json -vet=off -count=1 ./...","source_commits":hook_commits,"add_only":True},
  "engines":[{"name":"goitmon","path":"harness/cmd/goitmon","serves_properties":[p['id'] for p in props],"kind_free_text":"runtime monitors over real goit processes: snapshots, independent decoders, reference model, fault injection"},
-            {"name":"goitin","path":"harness/inproc","serves_properties":["C01","C05","C06","C12","C19"],"kind_free_text":"in-process monitors linking the current /repo sources via the verif-tagged verifapi package"},
+            {"name":"goitin","path":"harness/inproc","serves_properties":["C01","C05","C06","C12","C19","C20"],"kind_free_text":"in-process monitors linking the current /repo sources via the verif-tagged verifapi package"},
             {"name":"vfsrewrite","path":"harness/cmd/vfsrewrite","serves_properties":["C15","C16","C12"],"kind_free_text":"go/ast rewriter routing every os.* / time.Now call site of a scratch copy through a counting fault-injection shim"}],
  "checks":checks,"not_applicable":[],
  "notes":"VERIF_SEED selects the PRNG stream; case lists are fixed by (seed, tier), never by a time budget. Scratch space: ${VERIF_SCRATCH:-/dev/shm}, removed on exit."}
